@@ -45,6 +45,10 @@ Var(x) == [k |-> "var", n |-> x, site |-> 0]
 Bin(op, l, r) == [k |-> "bin", op |-> op, l |-> l, r |-> r]
 Call(f, as) == [k |-> "call", f |-> f, site |-> 0, as |-> as]
 Interp(x) == [k |-> "str", segs |-> <<Lit(<<60>>), [k |-> "var", n |-> x, site |-> 0], Lit(<<62>>)>>]   \* "<{x}>"
+Idx(a, i) == [k |-> "idx", a |-> a, i |-> i]
+MCall(o, mm, as) == [k |-> "mcall", o |-> o, m |-> mm, as |-> as]
+ArrE(es) == [k |-> "arr", es |-> es]
+SetI(id, x, is, e) == [k |-> "seti", id |-> id, n |-> x, site |-> 0, is |-> is, e |-> e]
 Make(id, x, e) == [k |-> "make", id |-> id, d |-> 10 * id, n |-> x, site |-> 0, e |-> e]
 Make0(id, x) == [k |-> "make0", id |-> id, d |-> 10 * id, n |-> x, site |-> 0]
 Set(id, x, e) == [k |-> "set", id |-> id, n |-> x, site |-> 0, e |-> e]
@@ -66,22 +70,30 @@ InFun == LastIdx("def") > 0
 InLoop == LastIdx("loop") > LastIdx("def")
 CounterName(depth) == CASE depth = 1 -> "i1" [] depth = 2 -> "i2" [] depth = 3 -> "i3" [] OTHER -> "i4"
 Counters == {"i1", "i2", "i3", "i4"}
-NumOnly == Counters \cup {"k"}                 \* loop counters and parameters are numbers in every profile
-Assignable == Visible \ NumOnly
+NumOnly == Counters \cup {"k"}                 \* loop counters and the parameter k are numbers in every profile
+ArrNames == {"a", "b"}                          \* by convention these names hold arrays (of the profile's type)
+Assignable == Visible \ (NumOnly \cup ArrNames)
+VisArr == Visible \cap ArrNames
 
 \* simple expressions of the profile's type that are well-formed here; `c` makes literals distinct
-Atom(c) == IF P.ty = "num" THEN Num(c) ELSE StrC(c)
 \* a call from inside a function passes `k minus 1`; with the guard that opens every one-parameter
-\* function (`if to say (k small pass 1) start return .. end`) recursion is bounded by construction
-CallArgs(f, c) == IF P.arity[f] = 0 THEN <<>>
-                  ELSE IF "k" \in Visible THEN <<Bin("minus", Var("k"), Num(1))>> ELSE <<Num(c % 3)>>
+\* number function (`if to say (k small pass 1) start return .. end`) recursion is bounded by construction.
+\* In the `str` profile a one-parameter function takes a string `s`.
+Atom(c) == IF P.ty = "num" THEN Num(c) ELSE StrC(c)
+ScalarVars == Visible \ ((IF P.ty = "str" THEN NumOnly ELSE {}) \cup ArrNames)
+CallArgSets(f, c) == IF P.arity[f] = 0 THEN {<<>>}
+                     ELSE IF P.ty = "str" THEN {<<Atom(c)>>} \cup {<<Var(x)>> : x \in ScalarVars} \cup {<<Bin("add", Var(x), Atom(c))>> : x \in ScalarVars \cap (IF "argcat" \in P.kinds THEN ScalarVars ELSE {})}
+                     ELSE IF "k" \in Visible THEN {<<Bin("minus", Var("k"), Num(1))>>} ELSE {<<Num(c % 3)>>}
+Calls(c) == UNION {{Call(f, as) : as \in CallArgSets(f, c)} : f \in VisibleFuns}
 Exprs(c) ==
   {Atom(c)}
-  \cup {Var(x) : x \in Visible \ (IF P.ty = "str" THEN NumOnly ELSE {})}
-  \cup {Call(f, CallArgs(f, c)) : f \in VisibleFuns}
+  \cup {Var(x) : x \in ScalarVars}
+  \cup Calls(c)
   \cup {Bin(op, Var(x), Atom(c)) : op \in P.ops, x \in Assignable}
   \cup (IF "varvar" \in P.kinds THEN {Bin(op, Var(x), Var(y)) : op \in P.ops, x \in Visible \cap NumOnly, y \in Visible \cap NumOnly} ELSE {})
-  \cup (IF P.ty = "str" THEN {Interp(x) : x \in Assignable} ELSE {})
+  \cup (IF "addcall" \in P.kinds THEN {Bin("add", Var(x), e) : x \in Assignable, e \in Calls(c)} ELSE {})
+  \cup (IF P.ty = "str" /\ "interp" \in P.kinds THEN {Interp(x) : x \in Assignable} ELSE {})
+  \cup (IF "arr" \in P.kinds THEN {Idx(Var(a), Num(0)) : a \in VisArr} \cup {MCall(Var(a), "pop", <<>>) : a \in VisArr} ELSE {})
 \* conditions: comparisons of a visible number with a small constant, or a parameter test
 NumVars == IF P.ty = "num" THEN Visible ELSE Visible \cap NumOnly
 Conds(c) == {Bin("lt", Var(x), Num((c % 3) + 1)) : x \in NumVars} \cup {[k |-> "bool", v |-> b] : b \in IF NumVars = {} THEN {TRUE, FALSE} ELSE {}}
@@ -103,12 +115,17 @@ Promises == {{}} \cup {{f} : f \in P.funs}
 GenSimple ==
   /\ phase = "gen" /\ Room /\ Live
   /\ LET id == n + 1 IN
-     \/ /\ Has("make") /\ \E x \in P.names, e \in Exprs(id) : AddDecl(Make(id, x, e), x)
-     \/ /\ Has("make0") /\ \E x \in P.names : AddDecl(Make0(id, x), x)
+     \/ /\ Has("make") /\ \E x \in P.names \ ArrNames, e \in Exprs(id) : AddDecl(Make(id, x, e), x)
+     \/ /\ Has("make0") /\ \E x \in P.names \ ArrNames : AddDecl(Make0(id, x), x)
      \/ /\ Has("set") /\ \E x \in Assignable, e \in Exprs(id) : AddStmt(Set(id, x, e))
      \/ /\ Has("shout") /\ \E e \in Exprs(id) \ {Atom(id)} : AddStmt(Shout(id, e))
-     \/ /\ Has("call") /\ \E f \in VisibleFuns : AddStmt(ExprS(id, Call(f, CallArgs(f, id))))
+     \/ /\ Has("call") /\ \E e \in Calls(id) : AddStmt(ExprS(id, e))
      \/ /\ Has("ret") /\ InFun /\ \E e \in Exprs(id) : AddStmt(Ret(id, e))
+     \/ /\ Has("arr") /\ \E a \in ArrNames \cap P.names, e \in Exprs(id) : AddDecl(Make(id, a, ArrE(<<e>>)), a)
+     \/ /\ Has("arr") /\ \E a \in ArrNames \cap P.names, b \in VisArr : AddDecl(Make(id, a, Var(b)), a)
+     \/ /\ Has("arr") /\ \E a \in VisArr, e \in Exprs(id) : AddStmt(ExprS(id, MCall(Var(a), "push", <<e>>)))
+     \/ /\ Has("arr") /\ \E a \in VisArr, e \in Exprs(id) : AddStmt(SetI(id, a, <<Num(0)>>, e))
+     \/ /\ Has("arr") /\ \E a \in VisArr : AddStmt(Shout(id, Var(a)))
      \/ /\ Has("brk") /\ InLoop /\ Len(Cur.stmts) >= 1 /\ AddStmt(Brk(id))
      \/ /\ Has("cont") /\ InLoop /\ Len(Cur.stmts) >= 1 /\ AddStmt(Cont(id))
   /\ n' = n + 1
@@ -130,11 +147,11 @@ GenOpen ==
         /\ n' = n + 3
      \/ \* definition of a function this block promised
         /\ Has("def") /\ \E f \in Cur.funs \ Cur.defd :
-             LET ps == IF P.arity[f] = 0 THEN <<>> ELSE <<"k">>
+             LET ps == IF P.arity[f] = 0 THEN <<>> ELSE IF P.ty = "str" THEN <<"s">> ELSE <<"k">>
                  guard == [k |-> "if", id |-> 2000 + id, c |-> Bin("lt", Var("k"), Num(1)), t |-> <<Ret(3000 + id, Atom(id))>>, f |-> <<>>]
              IN stk' = Append([stk EXCEPT ![Len(stk)].defd = @ \cup {f}],
                               [Open("def", id, {}, {ps[j] : j \in 1..Len(ps)}, [f |-> f, ps |-> ps])
-                                 EXCEPT !.stmts = IF ps = <<>> THEN <<>> ELSE <<guard>>])
+                                 EXCEPT !.stmts = IF ps = <<>> \/ P.ty = "str" THEN <<>> ELSE <<guard>>])
         /\ n' = n + 1
   /\ UNCHANGED <<phase, prog, m, fuel, hist>>
 
@@ -177,7 +194,8 @@ Run ==
 
 Init == /\ phase = "gen" /\ n = 0 /\ prog = <<>> /\ fuel = 0 /\ hist = <<>>
         /\ m = [st |-> "none"]
-        /\ \E D \in Promises : stk = <<Open("root", 0, D, {}, <<>>)>>
+        \* a profile may fix a prelude: statements (with the names they declare) every program starts with
+        /\ \E D \in Promises : stk = <<[Open("root", 0, D, P.preDecl, <<>>) EXCEPT !.stmts = P.prelude]>>
 Next == GenSimple \/ GenOpen \/ GenClose \/ GenFinish \/ Run
 Spec == Init /\ [][Next]_vars
 
